@@ -5,6 +5,7 @@ from . import serial, bytesacct
 def run(ctx):
     serial.rule_inert_members(ctx)
     serial.rule_scratch_reset(ctx)
+    serial.rule_scratch_conditions(ctx)
     from . import c06
     c06.rule_cadence(ctx)                  # R06.5: re-attaching the output to a restored simulation leaves the persisted cadence counters alone
     serial.rule_R05_1(ctx)
